@@ -95,10 +95,11 @@ func NextXmppToken(p *xml.Decoder) (xml.Token, error) {
 	for {
 		t, err := p.Token()
 		if err == io.EOF {
-			return xml.StartElement{}, errors.New("connection closed")
+			return xml.StartElement{}, errConnectionClosed{}
 		}
 		if err != nil {
-			return xml.StartElement{}, fmt.Errorf("NextStart %s", err)
+			// %w: the text is the same, and the caller can still tell a lost connection from malformed XML
+			return xml.StartElement{}, fmt.Errorf("NextStart %w", err)
 		}
 		switch t := t.(type) {
 		case xml.StartElement:
@@ -110,6 +111,12 @@ func NextXmppToken(p *xml.Decoder) (xml.Token, error) {
 		}
 	}
 }
+
+// errConnectionClosed is the end of the input where a token was expected: the text it always had, and its cause.
+type errConnectionClosed struct{}
+
+func (errConnectionClosed) Error() string { return "connection closed" }
+func (errConnectionClosed) Unwrap() error { return io.EOF }
 
 // NextStart scans XML token stream to find next StartElement.
 func NextStart(p *xml.Decoder) (xml.StartElement, error) {
